@@ -36,6 +36,14 @@ impl<'a> CharacterString<'a> {
     }
 }
 
+#[cfg(simple_dns_verif)]
+impl<'a> CharacterString<'a> {
+    /// Verification hook: the raw bytes of this character string
+    pub fn verif_bytes(&self) -> &[u8] {
+        &self.data
+    }
+}
+
 impl<'a> TryFrom<CharacterString<'a>> for String {
     type Error = crate::SimpleDnsError;
 
